@@ -72,11 +72,14 @@ def run(ctx, R, tier):
         raise AnalysisError("SocketServer_Multiplex.events: handleRequest / _clientDisconnect anchors vanished")
     hst = enclosing_stmt(hreq[0])
     act = hst.targets[0].id if isinstance(hst, ast.Assign) and isinstance(hst.targets[0], ast.Name) else None
-    if act is None:
-        raise AnalysisError("events: result of handleRequest is not bound to a name")
+    # the result is either bound to a name that is then tested, or tested directly (`if not self.handleRequest(s):`)
 
     def inactive(atom, pol):
-        return pol is False and isinstance(atom, ast.Name) and atom.id == act
+        if pol is not False:
+            return False
+        if act is not None and isinstance(atom, ast.Name) and atom.id == act:
+            return True
+        return atom is hreq[0]
     tests = [n for n in ecfg.nodes if n.kind == "test" and any(edge_has_fact(e, inactive) for e in n.succ)]
     ok = len(tests) == 1
     cd2n = [n for c in cd2 for n in ctx.node_of(ev, c)]
